@@ -115,6 +115,13 @@ def fTermCapture : File := file [rule "S" [alt [rp "Ta" .oneOrMore none, rf "Tb"
 def fF5bBefore : File := file [rule "S" [alt [rf "X", rf "A1"]], rule "A1" [alt [rf "Tb"]],
   rule "X" [alt [rp "A" .oneOrMore none]], rule "A" [alt [rf "Ta"]]]
 
+/-- `S: Ta AUG;` (a reference to the augmented nonterminal: hung the table builder before repo 898fba1) -/
+def fAugRef : File := file [rule "S" [alt [rf "Ta", rf "AUG"]]]
+/-- `S: Ta AUG*;`, `S: Ta+[AUGL];`, `S: x=AUG Ta;` -/
+def fAugSugar : File := file [rule "S" [alt [rf "Ta", rp "AUG" .zeroOrMore none]]]
+def fAugSep : File := file [rule "S" [alt [rp "Ta" .oneOrMore (some "AUGL")]]]
+def fAugNamed : File := file [rule "S" [alt [.plain (nm "x") { gsym := some (.name kAUG), rep := none }, rf "Ta"]]]
+
 /-- the variant of `/repo` after C09-fix-8 and C09-fix-9 (= `Front.repoVariant` when this was written):
 everything repaired except the separator in helper names (F5) and the integer literal (F9) -/
 def vFix9 : Fixes := { v3da879f with reservedErr := true, helperClashErr := true }
